@@ -39,7 +39,39 @@ Sfx == { <<>>, <<120>>, <<DOT>>, <<RBR>>, <<COLON>>, <<SP>>, <<RBR, 120>> }
 Lits == { <<49,DOT,50,DOT,51,DOT,52>>, TagIPv6 \o <<49,COLON,COLON,50>>, TagIPv6 \o <<COLON,COLON>>, <<49,COLON,COLON,50>>,
           TagIPv6 \o Groups(8, 2), Groups(8, 2), TagIPv6 \o <<COLON,COLON>> \o V4T, TagIPv6 \o V4T, V4T \o <<COLON>> }
 FamSfx == { Br(x) \o y : x \in Lits, y \in Sfx } \cup { <<LBR>> \o x : x \in Lits } \cup { <<LBR, RBR>>, <<LBR>>, <<LBR, LBR>> \o V4T \o <<RBR>> }
-Family == FamOctet \cup FamV6 \cup FamSfx
+\* every byte value in each syntactic position of a literal
+v4a == <<49, DOT, 50, DOT, 51, DOT, 52>>
+HoleIp(t, b) ==
+  CASE t = 1 -> Br(<<b>> \o <<DOT, 50, DOT, 51, DOT, 52>>)
+    [] t = 2 -> Br(<<49, DOT, b, DOT, 51, DOT, 52>>)
+    [] t = 3 -> Br(<<49, DOT, 50, DOT, 51, DOT, b>>)
+    [] t = 4 -> Br(v4a \o <<b>>)
+    [] t = 5 -> Br(<<49, b>> \o <<DOT, 50, DOT, 51, DOT, 52>>)
+    [] t = 6 -> Br(TagIPv6 \o <<b, COLON, COLON, 49>>)
+    [] t = 7 -> Br(TagIPv6 \o <<49, COLON, b, COLON, 51, COLON, 52, COLON, 53, COLON, 54, COLON, 55, COLON, 56>>)
+    [] t = 8 -> Br(TagIPv6 \o <<COLON, COLON, b>>)
+    [] t = 9 -> Br(TagIPv6 \o <<COLON, COLON, 49, DOT, 50, DOT, 51, DOT, b>>)
+    [] t = 10 -> Br(<<b, 49, COLON, 50, COLON, 51, COLON, 52, COLON, 53, COLON, 54, COLON, 55, COLON, 56>>)
+    [] t = 11 -> Br(<<73, 80, 118, b, COLON, COLON, COLON, 49>>)
+    [] t = 12 -> Br(<<73, b, 118, 54, COLON, COLON, COLON, 49>>)
+    [] t = 13 -> Br(TagIPv6 \o <<49, 49, 49, b, COLON, COLON>>)
+    [] t = 14 -> Br(TagIPv6 \o <<49, COLON, COLON, 49, b>>)
+    [] t = 15 -> <<b>> \o Br(v4a)
+    [] t = 16 -> Br(TagIPv6 \o <<102, 102, 102, 102, COLON, COLON, 49, 57, 50, DOT, 48, DOT, 50, DOT, 49, 50, b>>)
+FamByteIp == { HoleIp(t, b) : t \in 1..16, b \in 1..255 }
+\* group / octet spellings away from the obvious boundaries, in the first, a middle and the last position
+Spell == { <<48>>, <<57>>, <<97>>, <<102>>, <<65>>, <<70>>, <<102, 102, 102, 102>>, <<70, 70, 70, 70>>, <<48, 48, 48, 48>>, <<49, 50, 51, 52>>,
+           <<97, 98, 99, 100>>, <<65, 98, 67, 100>>, <<103>>, <<102, 102, 102, 102, 102>>, <<HYPHEN, 49>>, <<57, 57, 57, 57>>, <<48, 102>>, <<49, 48, 48, 48, 48>> }
+G7 == <<49, COLON, 50, COLON, 51, COLON, 52, COLON, 53, COLON, 54, COLON, 55>>
+FamSpell == UNION { { Br(TagIPv6 \o g \o <<COLON>> \o G7), Br(TagIPv6 \o G7 \o <<COLON>> \o g),
+                      Br(TagIPv6 \o <<49, COLON, 50, COLON, 51, COLON>> \o g \o <<COLON, 53, COLON, 54, COLON, 55, COLON, 56>>),
+                      Br(TagIPv6 \o g \o <<COLON, COLON>> \o g), Br(TagIPv6 \o <<COLON, COLON>> \o g), Br(g \o <<COLON>> \o G7),
+                      Br(TagIPv6 \o <<COLON, COLON>> \o g \o <<COLON>> \o v4a) } : g \in Spell }
+            \cup { Br(JoinWith(<<o1, o2, o3, o4>>, DOT)) : o1 \in {<<49>>, <<50, 53, 53>>, <<57>>}, o2 \in {<<48>>, <<56>>, <<50, 53, 54>>},
+                                                           o3 \in {<<57, 57>>, <<49, 57, 57>>}, o4 \in {<<48>>, <<50, 53, 53>>, <<50, 54, 48>>, <<51, 48, 48>>} }
+            \cup { Br(TagIPv6 \o <<COLON, COLON>> \o JoinWith(<<o1, o2, <<49>>, o4>>, DOT)) : o1 \in {<<49>>, <<50, 53, 53>>, <<48>>}, o2 \in {<<48>>, <<50, 53, 54>>},
+                                                           o4 \in {<<48>>, <<50, 53, 53>>, <<50, 53, 54>>} }
+Family == FamOctet \cup FamV6 \cup FamSfx \cup FamByteIp \cup FamSpell
 
 D == Br(c)
 \* families are spread over 64 buckets (k = -1: bucket chosen) so that all workers share the evaluation
